@@ -64,7 +64,7 @@ pub fn c13_def() -> PropDef {
             "no faults other than the dropped mempool link of the variant; delays below a quarter of the round timeout",
             "the commit channel is observed through the real Node::commit receiver",
         ],
-        parts: vec![Part { name: "end-to-end", cfg_len: CFG_LEN, tape_max: 220, quick: 500, thorough: 20_000, max_shrink_iters: 60, run: c13_run }],
+        parts: vec![Part { name: "end-to-end", cfg_len: CFG_LEN, tape_max: 220, quick: 1_500, thorough: 40_000, max_shrink_iters: 60, run: c13_run }],
     }
 }
 
@@ -289,7 +289,7 @@ pub fn c07_def() -> PropDef {
         level: "exploration",
         rule: "proptest cfg (4..5 real nodes, equal stakes so the others are a quorum, keyed delays 12..40 ms, timeout 400 ms, seeds) + tape -> one victim is cut off (connections reset and refused, or frames silently dropped - tape) from a tape-chosen instant for a tape-chosen length (gap of 1..40 blocks; rounds led by the victim force view changes inside the gap), then reconnected; in a quarter of the cases the victim's SyncRequest frames to one peer are dropped for the rest of the run (unresponsive first sync target -> retry with all peers). Oracle: (i) every Propose written in reply to a SyncRequest(d) carries a block whose digest is d, reference-valid and byte-equal to a copy that was proposed on the wire; (ii) at the horizon (computed from gap length, delays and the retry period) the victim's committed chain has reached the round the others had committed when it was reconnected, and all commit chains are prefix-consistent; (iii) when the first target stays silent, requests for the missing digest reach other peers; (iv) on the victim, every block fetched through sync is written to the store after its parent (or its parent is genesis). Non-trivial: gap >= 3 blocks; classes with / without a view change inside the gap, retry path taken; distinct by (delays, isolation interval) hash.",
         assumptions: &["the others (n-1 of n equal stakes, n <= 5) form a quorum and keep committing while the victim is cut off"],
-        parts: vec![Part { name: "catch-up", cfg_len: CFG_LEN, tape_max: 40, quick: 600, thorough: 25_000, max_shrink_iters: 60, run: c07_run }],
+        parts: vec![Part { name: "catch-up", cfg_len: CFG_LEN, tape_max: 40, quick: 800, thorough: 25_000, max_shrink_iters: 60, run: c07_run }],
     }
 }
 
@@ -525,7 +525,7 @@ pub fn c06_def() -> PropDef {
             "crash model: a crashed node's earlier frames are still delivered (delayed, not lost), as the property's premise states",
             "only stalls and super-bound slowdowns are detectable; 'eventually' as such is not",
         ],
-        parts: vec![Part { name: "crash-liveness", cfg_len: CFG_LEN, tape_max: 60, quick: 400, thorough: 20_000, max_shrink_iters: 60, run: c06_run }],
+        parts: vec![Part { name: "crash-liveness", cfg_len: CFG_LEN, tape_max: 60, quick: 600, thorough: 30_000, max_shrink_iters: 60, run: c06_run }],
     }
 }
 
